@@ -183,6 +183,8 @@ def worker(fwd, ops, errors):
                 if not spec.get("no_times"):
                     fwd.time(BASE + datetime.timedelta(seconds=spec["t1"]))
                 name = spec["outcome"]
+                if FAKE_CLOCK[0]:
+                    REPORTED_AT[spec["id"]] = TICKS[0][0]     # the forwarders' clock as the test reports its outcome
                 try:
                     if name == "addSkip":
                         fwd.addSkip(test, spec.get("skip_reason", "why"))
@@ -240,6 +242,8 @@ def model_times(ops):
 
 
 FAKE_CLOCK = [False]
+TICKS = [[0]]
+REPORTED_AT = {}
 FAKE_BASE = datetime.datetime(1991, 1, 1, tzinfo=datetime.timezone.utc)
 
 
@@ -285,6 +289,8 @@ def execute(workload, chooser, fault=None, line_yield=False):
 
     def main():
         ticks = [0]
+        TICKS[0] = ticks
+        REPORTED_AT.clear()
 
         class OwnClock(testtools.ThreadsafeForwardingResult):
             def _now(self):
@@ -465,6 +471,14 @@ def check_log(ctx, workload, sch, log, sem, errors, exc, threads, fault, detail)
                       "block.own-start-time", lambda: {"test": s["id"], "times": [repr(x) for x in times],
                                                        "want (seconds after BASE, None = system clock)": want_times,
                                                        **detail()})
+            if FAKE_CLOCK[0] and len(times) >= 2 and times[1] is not None and s["id"] in REPORTED_AT \
+                    and 0 <= (times[1] - FAKE_BASE).total_seconds() < 86400:
+                # the end time is the clock reading when the test REPORTED (the forwarder reads its clock first thing),
+                # not when the target became free for its block
+                want_end = FAKE_BASE + datetime.timedelta(seconds=REPORTED_AT[s["id"]] + 1)
+                ctx.check(times[1] == want_end, "block.own-start-time",
+                          lambda: {"test": s["id"], "end time forwarded": repr(times[1]),
+                                   "the forwarder's clock when the test reported": repr(want_end), **detail()})
             out = [x for x in b["events"] if x.name in recorders.OUTCOMES]
             if out:
                 ctx.check(out[0].payload["tags"] == tags[s["id"]], "block.tags-of-that-test",
@@ -618,7 +632,7 @@ def run(ctx):
                                                                                   "stop", "done"]), rng.randint(1, 3)]
         if not ctx.quick and rng.random() < 0.1:
             case["lines"] = True
-        if rng.random() < 0.15:
+        if rng.random() < 0.3:
             case["own_clock"] = True       # forwarders of a subclass that overrides the _now() hook
         ctx.execute("schedule", case)
     # ---- free-running stress ---------------------------------------------------------------------------
